@@ -328,8 +328,7 @@ def expected(e: dict) -> dict:
     return exp
 
 
-_G = None
-_M = None
+_GS = []       # [(Graph, model)] of the section; set before the pool forks
 
 
 def _root(g: Graph, s: str) -> dict:
@@ -338,10 +337,32 @@ def _root(g: Graph, s: str) -> dict:
     return g.states[s]
 
 
+class _Stuck(KeyboardInterrupt):
+    """Raised by the watchdog inside implementation code that does not return (asyncio lets only
+    KeyboardInterrupt/SystemExit travel through callbacks and tasks)."""
+
+
+STUCK_AFTER = 60.0     # wall seconds for one replayed history (they take milliseconds; 64 x 64 ones tens of milliseconds)
+
+
+def _watchdog(seconds):
+    import signal
+
+    def on_alarm(signum, frame):
+        raise _Stuck()
+    if seconds:
+        signal.signal(signal.SIGALRM, on_alarm)
+        signal.setitimer(signal.ITIMER_REAL, seconds)
+    else:
+        signal.setitimer(signal.ITIMER_REAL, 0)
+        signal.signal(signal.SIGALRM, signal.SIG_DFL)
+
+
 def _replay(items):
-    g, m = _G, _M
+    """items: (model number, edge of the implementation's grid, edge number | (incoming edge number, edge number))."""
     res = []
-    for edge_size, item in items:
+    for mi, edge_size, item in items:
+        g, m = _GS[mi]
         pre = []
         if isinstance(item, tuple):
             pre, ei = [g.edges[item[0]]], item[1]
@@ -349,21 +370,35 @@ def _replay(items):
             ei = item
         e = g.edges[ei]
         start = pre[0]["_s"] if pre else e["_s"]
-        impl = Impl(_root(g, start), m["n"], m.get("chunks", 4), edge_size)
+        root = _root(g, start)
+        hist = []
+        impl = None
+        exp = expected(e)
         try:
-            hist = []
-            for pe in g.path_to(start) + pre:
-                impl.step(pe["act"], observe=False)
-                hist.append(pe["act"])
-            got = impl.step(e["act"])
-            hist.append(e["act"])
-            exp = expected(e)
+            _watchdog(STUCK_AFTER)
+            try:
+                impl = Impl(root, m["n"], m.get("chunks", 4), edge_size)
+                for pe in g.path_to(start) + pre:
+                    hist.append(pe["act"])
+                    impl.step(pe["act"], observe=False)
+                hist.append(e["act"])
+                got = impl.step(e["act"])
+            except _Stuck:
+                got = {"raised": "does not return (%.0f s) in event %d of the history" % (STUCK_AFTER, len(hist))}
+                hist = hist + [e["act"]] if hist[-1:] != [e["act"]] else hist
             if got != exp:
-                res.append({"history": hist, "start": {k: _root(g, start)[k] for k in ("kind", "ov")}, "grid": edge_size,
+                res.append({"model": mi, "history": hist, "start": {k: root[k] for k in ("kind", "ov")}, "grid": edge_size,
                             "expected": exp, "observed": got,
                             "differs": sorted(k for k in set(exp) | set(got) if exp.get(k) != got.get(k))})
         finally:
-            impl.close()
+            try:
+                _watchdog(10.0)
+                if impl is not None:
+                    impl.close()
+            except _Stuck:
+                pass
+            finally:
+                _watchdog(0)
     return res
 
 
@@ -408,46 +443,56 @@ def _cfg(m: dict, bugs, spec="MSpec") -> str:
     return ("SPECIFICATION %s\nCONSTANTS N = %d NumChunks = %d Layouts <- %s Probes = %s Bitmaps <- %s Kinds = %s Starts = %s InOrder = %s "
             "Bugs = %s MaxCalls = %d MaxProps = %d Depth = %d\n%s%s"
             % (spec, m["n"], m.get("chunks", 4), m["layouts"], _tla_set(m["probes"]), m["bitmaps"], _tla_set(m["kinds"]),
-               _tla_set(m["starts"]), "TRUE" if m["in_order"] else "FALSE", _tla_set(bugs), m["calls"], m["props"], m["depth"],
+               _tla_set(m["starts"]), "TRUE" if m["in_order"] else "FALSE", _tla_set(bugs), m["calls"], m["props"], m["steps"] + 1,
                "".join("INVARIANT %s\n" % i for i in INVS), "".join("PROPERTY %s\n" % p for p in PROPS)))
 
 
-# The bounded models.  "assembly": nothing received yet, chunks in any order and repeated; "answers": the behaviour starts
-# after a first complete overlay, later overlays arrive in order (bounding device), more calls and answers.
-# chunks = 2: NUM_CHUNKS scaled down as well (an overlay change costs two steps); real = n: that many edges are replayed
-# once more at the real 64 x 64 size.
+# The bounded models (steps = longest history; TLC's Depth = steps + 1).
+#  assembly      nothing received yet; chunks in any order, repeated, replaced; calls parked until the overlay is complete
+#  wake          the same with chunks in order (bounding device): several parked calls, and the answers to what they ask
+#  segmentation  every mix of rows of five 4 x 4 layouts, then request_all_parcels(): the flood fill (also at real size)
+#  answers-*     starts after a first complete overlay; calls, answers in any order, unknown/duplicate/future sequence
+#                ids, timeouts, overlay changes under outstanding requests.  chunks = 2: NUM_CHUNKS scaled down as well,
+#                so that an overlay change costs two steps
+#  reshape       2 x 2 layouts whose mixes have 1, 2, 2 (another shape) and 3 parcels: what is kept / dropped on a change
+# real = n: that many edges are replayed once more into the unmodified class at the real 64 x 64 size.
+# design = False: no separate model-checking run of the intended design (Bugs = {}) for this model.
 MODELS = {
     "quick": [
         dict(name="assembly", n=2, layouts="L2a", probes=[1], bitmaps="B2a", kinds=["client"], starts=[0], in_order=False,
-             calls=2, props=1, depth=5),
+             calls=1, props=1, steps=5, design=False),
+        dict(name="wake", n=2, layouts="L2a", probes=[1], bitmaps="B2a", kinds=["client"], starts=[0], in_order=True,
+             calls=2, props=1, steps=7, design=False),
         dict(name="segmentation", n=4, layouts="L4b", probes=[], bitmaps="B4a", kinds=["client"], starts=[0], in_order=True,
-             calls=1, props=0, depth=5, real=48, design=False),
+             calls=1, props=0, steps=5, real=48, design=False),
         dict(name="answers-proxy", n=4, chunks=2, layouts="L4a", probes=[6], bitmaps="B4c", kinds=["proxy"], starts=[2], in_order=True,
-             calls=2, props=2, depth=5, real=24),
+             calls=2, props=2, steps=4, real=24, design=False),
         dict(name="answers-client", n=4, chunks=2, layouts="L4a", probes=[6], bitmaps="B4a", kinds=["client"], starts=[1], in_order=True,
-             calls=2, props=2, depth=6, real=24),
+             calls=2, props=2, steps=5, real=24),
     ],
     "thorough": [
         dict(name="assembly", n=2, layouts="L2b", probes=[1], bitmaps="B2b", kinds=["client"], starts=[0], in_order=False,
-             calls=2, props=1, depth=6),
+             calls=2, props=1, steps=5),
         dict(name="assembly-proxy", n=2, layouts="L2a", probes=[1], bitmaps="B2b", kinds=["proxy"], starts=[0], in_order=False,
-             calls=1, props=2, depth=6),
+             calls=1, props=2, steps=6),
+        dict(name="wake", n=2, layouts="L2a", probes=[1], bitmaps="B2a", kinds=["client"], starts=[0], in_order=True,
+             calls=3, props=2, steps=8),
         dict(name="segmentation", n=4, layouts="L4b", probes=[], bitmaps="B4a", kinds=["client"], starts=[0], in_order=True,
-             calls=1, props=0, depth=5, real=300, design=False),
+             calls=1, props=0, steps=5, real=300, design=False),
         dict(name="answers-proxy", n=4, chunks=2, layouts="L4a", probes=[6], bitmaps="B4b", kinds=["proxy"], starts=[1, 2], in_order=True,
-             calls=2, props=2, depth=6, real=150),
+             calls=2, props=2, steps=5, real=150),
         dict(name="answers-client", n=4, layouts="L4a", probes=[6], bitmaps="B4a", kinds=["client"], starts=[1, 2], in_order=True,
-             calls=2, props=2, depth=8, real=150),
+             calls=2, props=2, steps=7, real=150),
         dict(name="reshape", n=2, layouts="L2d", probes=[1], bitmaps="B2a", kinds=["client"], starts=[1], in_order=True,
-             calls=2, props=3, depth=8),
+             calls=2, props=3, steps=7),
     ],
 }
 
 
 def _run_models(chk: Check, models, bugs):
-    """All TLC runs of the section side by side (one JVM each, one worker each): the export of every model with `bugs`,
-    and -- when `bugs` is not empty -- a plain model-checking run of the intended design (Bugs = {}) so that the
-    invariants the as-is behaviours are excused from are checked somewhere."""
+    """All TLC runs of the section side by side (one JVM, one worker each): the export of every model with `bugs`, and --
+    when `bugs` is not empty -- a plain model-checking run of the intended design (Bugs = {}), so that the invariants
+    the as-is behaviours are excused from are checked somewhere.  Returns the graphs in the order of `models`."""
     import concurrent.futures
     import os
     jobs = []
@@ -455,67 +500,63 @@ def _run_models(chk: Check, models, bugs):
         jobs.append((k, "export", _cfg(m, bugs)))
         if bugs and m.get("design", True):
             jobs.append((k, "design", _cfg(m, (), spec="BSpec")))
-    paths = []
-    for k, what, text in jobs:
-        path = os.path.join(chk.scratch, "parceloverlay-%d-%s-%d.cfg" % (k, what, len(chk.cov["tlc_runs"])))
-        with open(path, "w") as f:
-            f.write(text)
-        paths.append(path)
     mod = os.path.join(common.SPECS, "ParcelOverlay_MBT.tla")
 
-    def run(path):
-        return common.run_tlc(mod, path, workers=1, scratch=chk.scratch, timeout=1800, heap="4g")
+    def run(job):
+        k, what, text = job
+        path = os.path.join(chk.scratch, "parceloverlay-%d-%s.cfg" % (k, what))
+        with open(path, "w") as f:
+            f.write(text)
+        res = common.run_tlc(mod, path, workers=1, scratch=chk.scratch, timeout=1800, heap="4g")
+        # the graph is built here: small models are parsed while TLC still works on the large ones
+        return res, (Graph(res.printed()) if what == "export" and res.ok else None)
+    # the large models first
+    order = sorted(range(len(jobs)), key=lambda j: -(models[jobs[j][0]]["steps"] * models[jobs[j][0]]["n"]))
     with concurrent.futures.ThreadPoolExecutor(max_workers=max(1, len(jobs))) as ex:
-        results = list(ex.map(run, paths))
+        done = dict(zip(order, ex.map(run, [jobs[j] for j in order])))
     graphs = {}
-    for (k, what, _), res in zip(jobs, results):
+    for j, (k, what, _) in enumerate(jobs):
+        res, g = done[j]
         m = models[k]
-        label = "ParcelOverlay %s n%d d%d" % (m["name"], m["n"], m["depth"])
+        label = "ParcelOverlay %s n%d s%d" % (m["name"], m["n"], m["steps"])
         if not res.ok:
             raise common.MachineryError("%s (%s, Bugs = %s) failed:\n%s" % (label, what, _tla_set(bugs if what == "export" else ()),
                                                                           (res.counterexample() or res.out)[-3000:]))
         chk.add_tlc(res, label + (" (export)" if what == "export" else " (intended design, model checking only)"))
         chk.cov["tlc_runs"][-1]["invariants"] = INVS + PROPS
         if what == "export":
-            graphs[k] = Graph(res.printed())
+            graphs[k] = g
     return [graphs[k] for k in range(len(models))]
 
 
 def section(chk: Check, size: str = None, cap_pairs: int = 3000, bugs=AS_IS, models=None):
-    """size: "quick" | "thorough" (or pass `models`, a list like MODELS[...]).  `bugs`: the as-is behaviours the
-    specification is to model (default: those of the pinned tree, so that the unchanged tree shows no divergence);
-    bugs=() compares with the intended design."""
-    global _G, _M
+    """size: "quick" | "thorough" (default: the tier of the check), or pass `models`, a list like MODELS[...].
+    `bugs`: the as-is behaviours the specification is to model (default: those of the pinned tree, so that the unchanged
+    tree shows no divergence); bugs=() compares the implementation with the intended design."""
+    global _GS
     models = models or MODELS[size or chk.tier]
     per_action = {a: 0 for a in ACTIONS}
     sites = {k: 0 for k in ("overlay_completed", "overlay_changed", "overlay_resent_unchanged", "parcel_count_changed",
                             "answer_matched", "answer_unmatched", "answer_rebinds", "download_finished", "download_finished_stale",
                             "parked_calls_woken", "timeouts", "cached_dirty_call")}
-    total = 0
     _warm()
-    for m, g in zip(models, _run_models(chk, models, tuple(bugs))):
-        _G, _M = g, m
+    graphs = _run_models(chk, models, tuple(bugs))
+    _GS = list(zip(graphs, models))
+    ids, heavy_ids = [], []
+    for mi, (g, m) in enumerate(_GS):
         edges = g.reachable_edges()
-        ids = [(m["n"], i) for i in edges] + [(m["n"], p) for p in g.merge_pairs(cap_pairs)]
-        if m.get("real") and m["n"] % 4 == 0:
+        ids += [(mi, m["n"], i) for i in edges] + [(mi, m["n"], p) for p in g.merge_pairs(cap_pairs)]
+        if m.get("real"):
             # the unmodified class at the real grid size: edges that segment, ask, bind or look up
             heavy = [i for i in edges if g.edges[i]["act"]["n"] != "Chunk" or g.edges[i]["obs"]["o"]["done"]]
             stride = max(1, len(heavy) // m["real"])
-            ids += [(64, i) for i in heavy[::stride][:m["real"]]]
-        k = common.NCPU * 4      # dealt round-robin: the real-size replays are the expensive ones and sit at the end
-        results = common.parallel_map(_replay, [ids[j::k] for j in range(k) if ids[j::k]] or [[]])
-        total += len(ids)
+            heavy_ids += [(mi, 64, i) for i in heavy[::stride][:m["real"]]]
         for i in edges:
             e = g.edges[i]
             per_action[e["act"]["n"]] += 1
             _count_sites(sites, e)
             if e["src"]["ov"] != e["dst"]["ov"] or e["src"]["parcels"] != e["dst"]["parcels"] or e["obs"]["o"].get("reqs"):
                 chk.nontrivial(("parceloverlay", m["name"], e["_s"], common.skey(e["act"])))
-        for bads in results:
-            for b in bads:
-                chk.divergence("ParcelOverlay", "B1 parcel map: %s differs from ParcelOverlay specification" % ",".join(b["differs"]),
-                               {"kind": "b1-parceloverlay", "model": m["name"], "differs": b["differs"], "last": b["history"][-1]["n"],
-                                "grid": b["grid"]}, b)
         pick = [e for e in g.edges if e["act"]["n"] == "Props" and e["obs"]["o"]["matched"] and e["src"]["parcels"] != e["dst"]["parcels"]]
         if pick:
             e = pick[len(pick) // 2]
@@ -524,15 +565,27 @@ def section(chk: Check, size: str = None, cap_pairs: int = 3000, bugs=AS_IS, mod
     missing = [a for a, k in per_action.items() if not k]
     if missing:
         raise common.MachineryError("ParcelOverlay: actions never fire in the bounded models: %s" % missing)
-    chk.count(total)
-    chk.cov["traces_validated_against_impl"] += total
-    chk.cov["parceloverlay_edges"] = total
+    # dealt round-robin, the expensive real-size replays first
+    ids = heavy_ids + ids
+    k = common.NCPU * 4
+    results = common.parallel_map(_replay, [ids[j::k] for j in range(k) if ids[j::k]] or [[]])
+    for bads in results:
+        for b in bads:
+            chk.divergence("ParcelOverlay", "B1 parcel map: %s differs from ParcelOverlay specification" % ",".join(b["differs"]),
+                           {"kind": "b1-parceloverlay", "model": models[b["model"]]["name"], "differs": b["differs"],
+                            "last": b["history"][-1]["n"], "grid": b["grid"]}, b)
+    chk.count(len(ids))
+    chk.cov["traces_validated_against_impl"] += len(ids)
+    chk.cov["parceloverlay_edges"] = len(ids)
+    chk.cov["parceloverlay_real_size_edges"] = len(heavy_ids)
     chk.cov["parceloverlay_actions"] = per_action
     chk.cov["parceloverlay_sites"] = sites
     chk.assumptions += [
-        "ParcelOverlay (growth): grid scaled to N x N through a subclass overriding GRIDS_PER_EDGE/GRID_STEP; a sample of the "
-        "N = 4 edges is replayed at the real 64 x 64 size (16 x 16 blocks per model cell)",
+        "ParcelOverlay (growth): grid (and, where a model says chunks = 2, NUM_CHUNKS) scaled down through a subclass overriding "
+        "the class constants; a sample of the 4 x 4 edges is replayed at the real 64 x 64 size with the unmodified class "
+        "(16 x 16 blocks per model cell)",
         "ParcelOverlay (growth): virtual asyncio clock; %.2f s pass before every event, Timeout = %.0f s after the last request; "
-        "request_all_parcels() is taken to ask about the first cell (wire order) of each parcel" % (STEP_DT, TIMEOUT),
+        "request_all_parcels() is taken to ask about the first cell (wire order) of each parcel; calls resumed by the same "
+        "overlay get their sequence ids in the order asyncio resumes them" % (STEP_DT, TIMEOUT),
         "ParcelOverlay (growth): specification run with Bugs = %s (as-is behaviours of the pinned tree; {} = intended design)" % _tla_set(bugs),
     ]
